@@ -22,10 +22,13 @@ echo "tests: build=$RC_B exit=$RC_T passed=$NPASS | demo clean exit=$RC_CLEAN | 
 OUT=/verif/seeded/$NAME
 mkdir -p "$OUT"
 cp "$S/patch.diff" "$S/demo.cpp" "$OUT/"; cp "$S/README.txt" "$OUT/README.txt" 2>/dev/null
-# run the check against /repo with the patch applied
-cd /repo && git apply "$S/patch.diff" || { echo "patch does not apply to /repo"; exit 2; }
-cd /verif && python3 -m glv.check "$P" --tier quick >"$OUT/check_quick.out" 2>&1; RC_CHK=$?
-git -C /repo checkout -q -- .
+# run the check against a scratch worktree of /repo with the patch applied (/repo itself is never touched: other jobs read it)
+W=$(mktemp -d /tmp/seedtest.XXXXXX); rmdir $W
+git -C /repo worktree add --detach $W HEAD >/dev/null 2>&1 || { echo "cannot create worktree"; exit 2; }
+git -C $W apply "$S/patch.diff" || { echo "patch does not apply to a clean worktree"; git -C /repo worktree remove --force $W; exit 2; }
+WK=$(mktemp -d /tmp/seedwork.XXXXXX)
+cd /verif && GLV_REPO=$W GLV_WORK=$WK/work GLV_EVIDENCE=$WK/evidence python3 -m glv.check "$P" --tier quick >"$OUT/check_quick.out" 2>&1; RC_CHK=$?
+git -C /repo worktree remove --force $W >/dev/null 2>&1; rm -rf $WK
 NV=$(grep -c "^VIOLATION" "$OUT/check_quick.out")
 echo "check $P on seeded tree: exit=$RC_CHK violations=$NV"
 grep -m3 "refuted:" "$OUT/check_quick.out" | cut -c1-400
@@ -38,5 +41,4 @@ meta=dict(property=p,name=name,source='independent sub-agent given only the prop
  check=dict(cmd='python3 -m glv.check %s --tier quick'%p,exit=int(rchk),violation_lines=int(nv),detected=int(rchk)==1))
 json.dump(meta,open('/verif/seeded/%s/meta.json'%name,'w'),indent=1)
 PY
-# restore evidence for the unchanged tree
-cd /verif && python3 -m glv.check "$P" --tier quick >/dev/null 2>&1
+
